@@ -39,6 +39,8 @@ def configs(tier):
     for centre in ('peak', 'trough'):
         for ncyc in ((4, 5), (3, 7)):
             out.append({'mode': 'cut', 'n': 4, 'rows': 1, 'centre': centre, 'ncyc': list(ncyc)})
+    # a signal length with a prime factor > 11 (what FFT helpers like to pad): the amplitude is computed on the signal as it is
+    out.append({'mode': 'cut', 'n': 13, 'rows': 1, 'centre': 'peak'})
     # compute_band_amp called directly (it is public): the mean amplitude must not take the signal's dtype
     for dt in ('float', 'int', 'int16'):
         out.append({'mode': 'band', 'n': 5, 'rows': 2, 'centre': 'peak', 'dtype': dt})
